@@ -387,7 +387,7 @@ impl<K: HKey> Store<K> {
                         Ok(None) => json!("-"),
                         Err(e) => json!(format!("!{}", err_class(&e))),
                     };
-                    for (s, e) in [(1u64, 4u64), (0, 100_000)] {
+                    for (s, e) in [(1u64, 4u64), (0, 100_000), (7, 299_999)] {
                         let v = match cas.get_range(&k, s, e) {
                             Ok(Some(b)) => {
                                 let (c, off, l) = u.locate_slice(&b, &hint);
